@@ -83,9 +83,9 @@ def run(ctx):
                     "element: %s)" % (key, e, d, l1, l2, exp), detail={"case": key, "void_html_element": exp})
     # Lint asserts the right kinds in the two arms
     a1 = [norm(s) for s in lguards[0].body], [norm(s) for s in lguards[0].orelse]
-    r.check("R11.1", a1 == (["assert type == 'EmptyTag'"], ["assert type == 'StartTag'"]), "lint-start-arms", lint.where,
+    r.idiom("R11.1", a1 == (["assert type == 'EmptyTag'"], ["assert type == 'StartTag'"]), "lint-start-arms", lint.where,
             "Lint no longer requires EmptyTag for void and StartTag for other elements: %s" % (a1,))
-    r.check("R11.1", any(isinstance(s, ast.Assert) and norm(s.test) == "False" for s in lguards[1].body), "lint-end-arm", lint.where,
+    r.idiom("R11.1", any(isinstance(s, ast.Assert) and norm(s.test) == "False" for s in lguards[1].body), "lint-end-arm", lint.where,
             "Lint no longer rejects an EndTag for a void element")
 
     # ---- R11.2
@@ -145,7 +145,7 @@ def run(ctx):
     # what __iter__ unpacks
     unpack = [n for n in ast.walk(it.node) if isinstance(n, ast.Assign) and isinstance(n.targets[0], ast.Tuple)
               and norm(n.value) == "details" and len(n.targets[0].elts) == 4]
-    r.check("R11.3", len(unpack) == 2 and all([e.id for e in u.targets[0].elts] == ["namespace", "name", "attributes", "hasChildren"]
+    r.idiom("R11.3", len(unpack) == 2 and all([e.id for e in u.targets[0].elts] == ["namespace", "name", "attributes", "hasChildren"]
                                              for u in unpack), "iter-unpacks-element", it.where,
             "__iter__ no longer unpacks element details as (namespace, name, attributes, hasChildren)")
     for rel, qual in (("treewalkers/dom.py", "TreeWalker.getNodeDetails"), ("treewalkers/etree.py", "getETreeBuilder.TreeWalker.getNodeDetails")):
@@ -166,9 +166,12 @@ def run(ctx):
         r.check("R11.3", need <= kinds_seen, "%s::kinds" % rel, f.where, "%s does not report node kinds %s" % (qual, sorted(need - kinds_seen)))
         keys = [n.targets[0].slice for n in ast.walk(f.node) if isinstance(n, ast.Assign) and isinstance(n.targets[0], ast.Subscript)
                 and norm(n.targets[0].value) == "attrs"]
-        r.check("R11.3", len(keys) == 2 and all(isinstance(k, ast.Tuple) and len(k.elts) == 2 for k in keys) and
-                any(norm(k.elts[0]) == "None" for k in keys), "%s::attribute-keys" % rel, f.where,
-                "%s does not key attributes by (namespace|None, local name) pairs: %s" % (qual, [norm(k) for k in keys]))
+        shape_ok = len(keys) >= 1 and all(isinstance(k, ast.Tuple) and len(k.elts) == 2 for k in keys)
+        local_ok = shape_ok and not any("qualified" in norm(k).lower() or norm(k.elts[1]).endswith(".name") and norm(k.elts[0]) != "None" for k in keys)
+        r.idiom("R11.3", len(keys) == 2 and shape_ok and local_ok and any(norm(k.elts[0]) == "None" for k in keys),
+                "%s::attribute-keys" % rel, f.where,
+                "%s does not key attributes by (namespace|None, local name) pairs: %s" % (qual, [norm(k) for k in keys]),
+                wrong=[(bool(keys) and not shape_ok, None), (shape_ok and not local_ok, None)])
 
     # ---- R11.4
     et = "treewalkers/etree.py"
@@ -183,7 +186,8 @@ def run(ctx):
         r.check("R11.4", not bad, "%s::push-before-descent" % q.rsplit(".", 1)[1], "%s:%d" % (et, desc[0].lineno),
                 "%s descends into element[0] without pushing the element on the ancestor stack" % q)
         pushes = [n for n in cfg.stmt_nodes() if any(norm(c) == "parents.append(element)" for c in node_calls(n))]
-        r.check("R11.4", len(pushes) == 1, "%s::single-push" % q.rsplit(".", 1)[1], f.where, "%s pushes %d times" % (q, len(pushes)))
+        r.idiom("R11.4", len(pushes) == 1, "%s::single-push" % q.rsplit(".", 1)[1], f.where, "%s pushes %d times" % (q, len(pushes)),
+                wrong=[(len(pushes) > 1 and not cfg.must_precede(pushes[1:], lambda n: n is pushes[0]), None)])
     gp = repo.func(et, "getETreeBuilder.TreeWalker.getParentNode")
     cfg = CFG(gp.node)
     pops = [n for n in cfg.stmt_nodes() if any(norm(c) == "parents.pop()" for c in node_calls(n))]
@@ -210,9 +214,14 @@ def run(ctx):
     for k, v in facts.items():
         if k in ("lstrip", "rstrip"):
             continue
-    r.check("R11.5", facts["lstrip"] and facts["rstrip"], "split", tx.where, "text() no longer splits by lstrip/rstrip of the white-space characters")
-    r.check("R11.5", facts["order"], "order", tx.where, "text() does not emit leading space, text, trailing space in this order")
-    r.check("R11.5", facts["non-empty-only"], "non-empty-only", tx.where, "text() can emit empty tokens: guards are %s" % conds)
+    strips = [norm(c) for c in ast.walk(tx.node) if isinstance(c, ast.Call) and isinstance(c.func, ast.Attribute) and c.func.attr in ("lstrip", "rstrip", "strip")]
+    r.idiom("R11.5", facts["lstrip"] and facts["rstrip"], "split", tx.where, "text() no longer splits by lstrip/rstrip of the white-space characters",
+            wrong=[(any(not x.endswith("(spaceCharacters)") for x in strips),
+                    "text() strips with %s: characters other than the five HTML white-space characters end up in SpaceCharacters tokens" % strips)])
+    r.idiom("R11.5", facts["order"], "order", tx.where, "text() does not emit leading space, text, trailing space in this order")
+    n_yields = sum(1 for n in ast.walk(tx.node) if isinstance(n, ast.Yield))
+    r.idiom("R11.5", facts["non-empty-only"], "non-empty-only", tx.where, "text() can emit empty tokens: guards are %s" % conds,
+            wrong=[(n_yields == 3 and len(conds) < 3 and all(c in ("left", "middle", "right") for c in conds), None)])
     sc = ce.const("treewalkers/base.py", "spaceCharacters")
     r.check("R11.5", set(sc) == set("\t\n\x0c\r "), "space-set", "treewalkers/base.py", "walker white space is %r" % sc)
 
